@@ -1229,7 +1229,8 @@ def main(outfile):
     py2lean_lifecycle.main_lifecycle(os.path.join(os.path.dirname(outfile), 'TranslatedLifecycle.lean'), sys.modules[__name__])
     import py2lean_sim
     py2lean_sim.main_simulate(os.path.join(os.path.dirname(outfile), 'TranslatedSimulate.lean'),
-                              lambda: fn_ast(simulator.Circuit._simulate), write_if_changed)
+                              lambda: fn_ast(simulator.Circuit._simulate), write_if_changed,
+                              cls=simulator.Circuit)
     import py2lean_timeunits                                     # separate module: utils/timeunits.py (C19)
     py2lean_timeunits.main_timeunits(os.path.join(os.path.dirname(outfile), 'TranslatedTimeUnits.lean'), write_if_changed)
     import py2lean_cron                                          # separate module: cron, TimeDate, TimeSpan (C07)
